@@ -554,6 +554,7 @@ pub fn run(args: &RunArgs) -> i32 {
         per_base.insert(format!("default-command={}", COMMANDS[base_command].join(" ")), stats_json(&stats));
     }
     let frontend = part_frontend(&rep);
+    let history = part_history(args, &rep);
     cli::cleanup("c18");
     let cov = json!({
         "states": distinct.len() as u64,
@@ -568,6 +569,7 @@ pub fn run(args: &RunArgs) -> i32 {
         "cli_runs": ctr.runs.load(Ordering::Relaxed),
         "located_diagnostics_checked": ctr.located.load(Ordering::Relaxed),
         "front_end_cases": frontend,
+        "histories": history,
         "fault_alphabet": FAULTS.iter().map(|f| f.id).collect::<Vec<_>>(),
         "samples": [sample.lock().unwrap().clone().unwrap_or(J::Null)],
     });
@@ -577,6 +579,7 @@ pub fn run(args: &RunArgs) -> i32 {
             "token starts are taken from R-LEX (columns in characters); a diagnostic in a file that R-LEX cannot lex is only required to lie inside the file".into(),
             "with faults in several layers only the first failing layer (schema parse < operation parse < schema resolve < schema check < operation import < operation check) is required to be reported, and 'every offending file' is required within the check layers".into(),
             "the human rendering is compared with the json diagnostics of an identical fresh copy of the project".into(),
+            "histories: after every sequence of events between runs of `generate` the outputs must equal, byte for byte, what one run in a clean copy of the final inputs writes".into(),
             "front-end cases (no configuration file, arguments overriding it, usage errors): exit status, well-formed stdout, no panic and the written set are judged; a usage error has no file to locate".into(),
         ],
     )
@@ -687,6 +690,121 @@ fn part_frontend(rep: &Reporter) -> J {
         }
     }
     json!({"cases": cases.len(), "cli_runs": runs, "outcomes": outcomes})
+}
+
+/// Histories: `generate` run again after something happened to the directory - outputs (partly) deleted, inputs
+/// edited so that tokens move, an operation broken and repaired. After the last run the directory must look as if
+/// `generate` had run once in a clean copy of the final inputs: every listed file exists, byte for byte what a
+/// fresh run writes.
+fn part_history(args: &RunArgs, rep: &Reporter) -> J {
+    #[derive(Clone, Copy, Debug, PartialEq)]
+    enum Ev {
+        DeleteMaps,
+        DeleteDeclarations,
+        DeleteAllOutputs,
+        CommentLineOnInputs,
+        BreakAnOperation,
+        RepairTheOperation,
+        TouchOneOutput,
+    }
+    use Ev::*;
+    let alphabet = [DeleteMaps, DeleteDeclarations, DeleteAllOutputs, CommentLineOnInputs, BreakAnOperation, RepairTheOperation, TouchOneOutput];
+    let depth = if args.quick() { 2 } else { 3 };
+    let mut seqs: Vec<Vec<Ev>> = vec![];
+    for len in 1..=depth {
+        for code in 0..alphabet.len().pow(len as u32) {
+            let mut x = code;
+            seqs.push((0..len).map(|_| { let e = alphabet[x % alphabet.len()]; x /= alphabet.len(); e }).collect());
+        }
+    }
+    let runs = AtomicU64::new(0);
+    let compared = AtomicU64::new(0);
+    let modes: Vec<usize> = if args.quick() { vec![0] } else { vec![0, 1, 2] };
+    for mode in modes {
+        let base_case = Case { faults: vec![], crlf: 0, command: 1, discover: false, mode, resolvers: true, server: true, runtime: false, specifier: false, deep_out: false, stale: false };
+        let Some(b) = build(&base_case) else { continue };
+        let mut cmd = b.args.clone();
+        let i = cmd.iter().position(|a| a.is_empty()).unwrap();
+        cmd[i] = "json".into();
+        crate::explore::par_for(seqs.len(), args.threads, |si| {
+            let seq = &seqs[si];
+            let dir = cli::thread_dir("c18");
+            let mut inputs = b.project.clone();
+            cli::materialize(&dir, &inputs);
+            let mut last = cli::run(&dir, &cmd, &[], Duration::from_secs(60));
+            runs.fetch_add(1, Ordering::Relaxed);
+            let is_output = |k: &str| b.expected_outputs.contains(k);
+            let mut broken = false;
+            for ev in seq {
+                let tree = cli::snapshot(&dir);
+                match ev {
+                    DeleteMaps => tree.keys().filter(|k| is_output(k) && k.ends_with(".map")).for_each(|k| { let _ = std::fs::remove_file(dir.join(k)); }),
+                    DeleteDeclarations => tree.keys().filter(|k| is_output(k) && !k.ends_with(".map")).for_each(|k| { let _ = std::fs::remove_file(dir.join(k)); }),
+                    DeleteAllOutputs => tree.keys().filter(|k| is_output(k)).for_each(|k| { let _ = std::fs::remove_file(dir.join(k)); }),
+                    CommentLineOnInputs => {
+                        for (k, v) in inputs.files.iter_mut().filter(|(k, _)| k.ends_with(".graphql")) {
+                            let _ = k;
+                            *v = format!("# one more line\n{v}");
+                        }
+                        cli::overwrite(&dir, &inputs);
+                    }
+                    BreakAnOperation => {
+                        if let Some(v) = inputs.files.get_mut(F_SIMPLE) {
+                            *v = v.replace("{ id }", "{ idd }");
+                        }
+                        broken = true;
+                        cli::overwrite(&dir, &inputs);
+                    }
+                    RepairTheOperation => {
+                        if let Some(v) = inputs.files.get_mut(F_SIMPLE) {
+                            *v = v.replace("{ idd }", "{ id }");
+                        }
+                        broken = false;
+                        cli::overwrite(&dir, &inputs);
+                    }
+                    TouchOneOutput => {
+                        if let Some(k) = tree.keys().find(|k| is_output(k) && k.ends_with(".d.ts")) {
+                            let _ = std::fs::write(dir.join(k), "// edited by hand\n");
+                        }
+                    }
+                }
+                last = cli::run(&dir, &cmd, &[], Duration::from_secs(60));
+                runs.fetch_add(1, Ordering::Relaxed);
+            }
+            let case = |extra: J| json!({"part": "history", "mode": MODES[mode].0, "events": format!("{seq:?}"), "args": cmd, "files": inputs.files, "exit": last.code, "stdout": last.stdout.chars().take(3000).collect::<String>(), "detail": extra});
+            let v = |key: String, what: String, extra: J| rep.report(Violation { key: format!("history.{key}"), what: format!("after generate, {seq:?}, generate: {what}"), case: case(extra) });
+            let want = if broken { 1 } else { 0 };
+            if last.code != Some(want) {
+                v(format!("exit_status[want{want}]"), format!("exit status {:?}", last.code), json!({}));
+                return;
+            }
+            if broken {
+                return;
+            }
+            // the reference: one run in a clean directory holding the final inputs
+            let fresh_dir = std::path::PathBuf::from(format!("{}.fresh", dir.to_string_lossy()));
+            cli::materialize(&fresh_dir, &inputs);
+            let fresh = cli::run(&fresh_dir, &cmd, &[], Duration::from_secs(60));
+            runs.fetch_add(1, Ordering::Relaxed);
+            let _ = std::fs::remove_dir_all(format!("{}.io", fresh_dir.to_string_lossy()));
+            let doc: J = serde_json::from_str(last.stdout.trim_end_matches('\n')).unwrap_or(J::Null);
+            let dir_s = dir.to_string_lossy().to_string();
+            let listed: BTreeSet<String> = doc["generate"]["files"].as_array().into_iter().flatten().map(|f| rel(&dir_s, f["path"].as_str().unwrap_or(""))).collect();
+            if listed != b.expected_outputs {
+                v("generated_set".into(), format!("listed files differ from the configured outputs: missing {:?}, extra {:?}", b.expected_outputs.difference(&listed).collect::<Vec<_>>(), listed.difference(&b.expected_outputs).collect::<Vec<_>>()), json!({}));
+            }
+            for k in &b.expected_outputs {
+                compared.fetch_add(1, Ordering::Relaxed);
+                match (last.after.get(k), fresh.after.get(k)) {
+                    (None, _) => v(format!("listed_file_missing[{}]", if k.ends_with(".map") { "map" } else { "declaration" }), format!("{k} does not exist after the run"), json!({})),
+                    (Some(a), Some(f)) if a != f => v(format!("stale_output[{}]", if k.ends_with(".map") { "map" } else { "declaration" }), format!("{k} differs from what one run on the same inputs in a clean directory writes"), json!({"in_the_history": String::from_utf8_lossy(a).chars().take(1500).collect::<String>(), "fresh": String::from_utf8_lossy(f).chars().take(1500).collect::<String>()})),
+                    _ => {}
+                }
+            }
+            let _ = std::fs::remove_dir_all(&fresh_dir);
+        });
+    }
+    json!({"event_alphabet": alphabet.iter().map(|e| format!("{e:?}")).collect::<Vec<_>>(), "max_events": depth, "histories": seqs.len(), "cli_runs": runs.load(Ordering::Relaxed), "output_files_compared_with_a_fresh_run": compared.load(Ordering::Relaxed)})
 }
 
 pub fn replay(case: &J) -> i32 {
